@@ -32,12 +32,19 @@ NatLimbs(n, k) == IF k = 0 THEN <<>> ELSE <<n % 256>> \o NatLimbs(n \div 256, k 
 
 BNot(a) == [i \in 1..W |-> 255 - a[i]]
 
-RECURSIVE AddC(_, _, _, _)
-AddC(a, b, i, c) == IF i > W THEN <<>>
-                    ELSE LET s == a[i] + b[i] + c IN <<s % 256>> \o AddC(a, b, i + 1, s \div 256)
-AddL(a, b) == AddC(a, b, 1, 0)
-NegL(a) == AddC(BNot(a), Zero, 1, 1)
-SubL(a, b) == AddC(a, BNot(b), 1, 1)
+\* ripple-carry addition with carry-in c0.  NOTE on style: loops over limbs are FoldLeft (evaluated eagerly
+\* by TLC's Java override).  A RECURSIVE operator that threads an accumulator through its parameters is
+\* evaluated lazily by TLC and re-evaluates the chain at every reference: cost 2^W (measured: W=8 80x slower).
+Indices == [i \in 1..W |-> i]
+\* evaluate x ONCE and hand the value to F (LET definitions and operator arguments are re-evaluated by TLC
+\* at every reference; a one-element FoldLeft binds a concrete value instead)
+WithVal(x, F(_)) == FoldLeft(LAMBDA acc, e : F(e), 0, <<x>>)
+AddC(a, b, c0) ==
+   LET Step(acc, i) == LET s == a[i] + b[i] + acc[2] IN <<Append(acc[1], s % 256), s \div 256>>
+   IN FoldLeft(Step, <<<<>>, c0>>, Indices)[1]
+AddL(a, b) == AddC(a, b, 0)
+NegL(a) == AddC(BNot(a), Zero, 1)
+SubL(a, b) == AddC(a, BNot(b), 1)
 
 \* unsigned value, defined when it is below 2^24 (always when W <= 3)
 SmallNat(a) == \A i \in 4..W : a[i] = 0
@@ -73,10 +80,9 @@ SLe(a, b) == ~SLt(b, a)
 (* ---------------------------------------------------------------- multiplication *)
 RECURSIVE ColSum(_, _, _, _)
 ColSum(a, b, k, i) == IF i > k THEN 0 ELSE a[i] * b[k + 1 - i] + ColSum(a, b, k, i + 1)
-RECURSIVE MulC(_, _, _, _)
-MulC(a, b, k, c) == IF k > W THEN <<>>
-                    ELSE LET s == ColSum(a, b, k, 1) + c IN <<s % 256>> \o MulC(a, b, k + 1, s \div 256)
-MulL(a, b) == MulC(a, b, 1, 0)
+MulL(a, b) ==
+   LET Step(acc, k) == LET s == ColSum(a, b, k, 1) + acc[2] IN <<Append(acc[1], s % 256), s \div 256>>
+   IN FoldLeft(Step, <<<<>>, 0>>, Indices)[1]
 \* fast path: split into 12-bit halves so that no intermediate product reaches 2^31
 MulNat(x, y) == LET x0 == x % 4096  x1 == x \div 4096  y0 == y % 4096  y1 == y \div 4096 IN
                 (x0 * y0 + ((x1 * y0 + x0 * y1) % 4096) * 4096) % 16777216
@@ -108,20 +114,30 @@ Shl1In(a, b) == [i \in 1..W |-> ((a[i] * 2) % 256) + (IF i = 1 THEN b ELSE a[i -
 \* (evaluated eagerly by TLC's Java override) - a RECURSIVE operator with accumulating parameters is
 \* evaluated lazily by TLC and blows up super-linearly at W >= 4.
 BitsDesc == [i \in 1..Bits |-> Bits - i]
-UDivMod(n, d) ==
-   LET Step(acc, bit) == LET r2 == Shl1In(acc[2], BitAt(n, bit)) IN
-                         IF ULt(r2, d) THEN <<acc[1], r2>> ELSE <<SetBit(acc[1], bit), Sub(r2, d)>>
+UDivModV(nd) ==
+   LET Step(acc, bit) == LET r2 == Shl1In(acc[2], BitAt(nd[1], bit)) IN
+                         IF ULt(r2, nd[2]) THEN <<acc[1], r2>> ELSE <<SetBit(acc[1], bit), Sub(r2, nd[2])>>
    IN FoldLeft(Step, <<Zero, Zero>>, BitsDesc)
+UDivMod(n, d) == WithVal(<<n, d>>, UDivModV)
 Abs(a) == IF IsNeg(a) THEN Neg(a) ELSE a       \* as an unsigned magnitude (min_int maps to 2^(Bits-1))
 
+\* divide an unsigned magnitude by a small divisor (d <= 2^23), limb by limb from the top, with TLC
+\* integers: <<quotient, remainder (a TLC integer)>>.  Also used for decimal rendering.
+DivSmall(m, d) ==
+   LET Step(acc, i) == LET cur == acc[2] * 256 + m[i] IN <<[acc[1] EXCEPT ![i] = cur \div d], cur % d>>
+   IN FoldLeft(Step, <<Zero, 0>>, [j \in 1..W |-> W + 1 - j])
+IsSmallDivisor(d) == SmallNat(d) /\ ToNat(d) <= 8388608
+UDivModAny(n, d) == IF IsSmallDivisor(d) THEN LET qr == DivSmall(n, ToNat(d)) IN <<qr[1], FromNat(qr[2])>>
+                    ELSE UDivMod(n, d)
+
 \* floor division and modulo, b # 0, on limbs
-DivModLimbs(a, b) ==
-   LET qr == UDivMod(Abs(a), Abs(b))
-       q == qr[1]  r == qr[2]
+DivModSigned(x) ==      \* x = <<a, b, <<q, r>> of the magnitudes>>
+   LET a == x[1]  b == x[2]  q == x[3][1]  r == x[3][2]
    IN IF IsNeg(a) = IsNeg(b)
       THEN <<q, IF IsNeg(b) THEN Neg(r) ELSE r>>
       ELSE IF IsZero(r) THEN <<Neg(q), Zero>>
            ELSE <<Neg(Add(q, One)), IF IsNeg(b) THEN Sub(r, Abs(b)) ELSE Sub(Abs(b), r)>>
+DivModLimbs(a, b) == WithVal(<<a, b, UDivModAny(Abs(a), Abs(b))>>, DivModSigned)
 
 \* integer fast path (W <= 3): TLC's \div is floor division; % needs a positive divisor
 IntFloorMod(x, y) == IF y > 0 THEN x % y ELSE 0 - ((0 - x) % (0 - y))
@@ -135,19 +151,29 @@ BoolWord(t) == IF t THEN One ELSE Zero
 Truthy(a) == ~IsZero(a)
 
 (* ---------------------------------------------------------------- signed decimal rendering *)
-\* divide an unsigned magnitude by a small divisor, limb by limb from the top: <<quotient, remainder>>
-RECURSIVE DivSmallFrom(_, _, _, _)
-DivSmallFrom(m, d, i, r) ==
-   IF i = 0 THEN <<Zero, r>>
-   ELSE LET cur == r * 256 + m[i]
-            rest == DivSmallFrom(m, d, i - 1, cur % d)
-        IN <<[rest[1] EXCEPT ![i] = cur \div d], rest[2]>>
-DivSmall(m, d) == DivSmallFrom(m, d, W, 0)
-RECURSIVE UDigits(_)
-UDigits(m) == LET qr == DivSmall(m, 10) IN
-              IF IsZero(qr[1]) THEN <<48 + qr[2]>> ELSE UDigits(qr[1]) \o <<48 + qr[2]>>
+\* decimal digits of an unsigned magnitude: at most 3*W digits; acc = <<remaining value, digits so far>>
+UDigits(m) ==
+   LET Step(acc, i) == IF i > 1 /\ IsZero(acc[1]) THEN acc
+                       ELSE LET qr == DivSmall(acc[1], 10) IN <<qr[1], <<48 + qr[2]>> \o acc[2]>>
+   IN FoldLeft(Step, <<m, <<>>>>, [i \in 1..(3 * W) |-> i])[2]
 \* ASCII codes of the canonical signed decimal representation
 Decimal(a) == IF IsNeg(a) THEN <<45>> \o UDigits(Neg(a)) ELSE UDigits(a)
+
+\* full 2W-limb product of two unsigned magnitudes
+MulWide(a, b) ==
+   LET L(x, i) == IF i >= 1 /\ i <= W THEN x[i] ELSE 0
+       Col(k) == FoldLeft(LAMBDA acc, i : acc + L(a, i) * L(b, k + 1 - i), 0, Indices)
+       Step(acc, k) == LET s == Col(k) + acc[2] IN <<Append(acc[1], s % 256), s \div 256>>
+   IN FoldLeft(Step, <<<<>>, 0>>, [k \in 1..(2 * W) |-> k])[1]
+\* does the mathematical product of two signed words leave the signed range?
+MulOverflowsV(ab) ==
+   LET p == MulWide(Abs(ab[1]), Abs(ab[2]))
+       neg == IsNeg(ab[1]) # IsNeg(ab[2])
+       hiZero == \A i \in (W + 1)..(2 * W) : p[i] = 0
+       lowTop == p[W] >= 128
+       lowIsMin == p[W] = 128 /\ \A i \in 1..(W - 1) : p[i] = 0
+   IN ~hiZero \/ (lowTop /\ ~(neg /\ lowIsMin))
+MulOverflows(a, b) == WithVal(<<a, b>>, MulOverflowsV)
 
 \* did a signed operation leave the representable range?  (history bit `wrapped`, C18)
 AddOverflows(a, b) == IsNeg(a) = IsNeg(b) /\ IsNeg(Add(a, b)) # IsNeg(a)
